@@ -4,7 +4,7 @@ import itertools
 import numpy as np
 import pandas as pd
 
-from .. import common
+from .. import common, checklib
 from ..rtc.gen import rank, same_span
 
 LEVEL = "exploration"
@@ -170,7 +170,13 @@ def swap_checks(d):
     return out
 
 
+def PROOFS():
+    from ..contracts import categorical_c
+    return [("vf.contracts.categorical_c", categorical_c.FUNCTIONS)]
+
+
 def run(report, findings):
+    checklib.run_proofs(report, "C13", PROOFS())
     import logging
     import warnings
     logging.getLogger("formulae").setLevel(logging.CRITICAL)
